@@ -68,6 +68,7 @@ def main(argv=None):
     ap.add_argument("--jobs", type=int)
     ap.add_argument("--verbose", "-v", action="store_true")
     args = ap.parse_args(argv)
+    os.environ["VERIF_TIER"] = args.tier
     seed = int(os.environ.get("VERIF_SEED", "0") or 0)
     prop = args.prop
     if args.replay:
@@ -175,6 +176,9 @@ def report(prop, res, args, extra):
     os.makedirs(os.path.join(ROOT, "evidence"), exist_ok=True)
     with open(os.path.join(ROOT, "evidence", "%s.json" % prop), "w") as fh:
         json.dump(evidence, fh, indent=1, default=str)
+    if args.verbose:
+        for w, ss, np_, cid in res.get("timing", []):
+            print("  time %.1fs solver %.1fs paths %d  %s" % (w, ss, np_, cid))
     for ln in lines:
         print(ln)
     print("%s: %d obligations, %d discharged, %d known-finding, %d violated, %d undecided; %d contracts, %d functions, %d paths; solver %.1fs, wall %.1fs -> exit %d"
